@@ -293,12 +293,44 @@ def _closure_returns_param(binc, cid):
     return False
 
 
+def _derives_unchanged_call(binc, sup, pt, target_call, depth):
+    """The call a payload was traced to is a closure/helper invocation whose own result is the target call's."""
+    ct = pt.origin[2]
+    onode = (pt.origin_node[0], pt.origin[1])
+    inl = [m for lab, m in sup.edges(onode) if lab in ("call", "maycall")]
+    for m in inl:
+        cb = sup.body_of(m)
+        rets = cb.return_blocks()
+        if rets and _derives_unchanged(binc, sup, (m[0], rets[0]), {"k": "copy", "p": {"l": 0, "pr": []}}, target_call, depth + 1):
+            return True
+    return False
+
+
 def _derives_unchanged(binc, sup, node, op, target_call, depth=0):
     """The value read by `op` at `node` is the result of `target_call`, unchanged: through moves, helper
     parameters and returns, and through `.map_err(|e| { ..; e })`-style combinators that give the error back."""
     if depth > 6:
         return False
     tr = strace_deep(sup, node, op)
+    if tr.origin and tr.origin[0] == "multi" and all(s_[0] in ("use", "enter_caller", "enter_callee") for s_ in tr.steps):
+        # the Result taken apart and put together again, variant by variant:
+        # `match r { Ok(v) => return Ok(v), Err(e) => e }; ..; Err(e)`
+        onode = tr.origin_node
+        obody = sup.body_of(onode)
+        seen_v = set()
+        for db, _, kind, payload in tr.origin[2]:
+            if kind != "assign" or payload["rv"]["k"] != "aggregate" or payload["rv"].get("variant") not in ("Ok", "Err") or len(payload["rv"]["ops"]) != 1:
+                return False
+            v_ = payload["rv"]["variant"]
+            pt = strace_deep(sup, (onode[0], db), payload["rv"]["ops"][0])
+            if not (pt.origin and pt.origin[0] == "call" and any(s_[0] == "downcast" and s_[1] == v_ for s_ in pt.steps) and all(s_[0] in ("use", "enter_caller", "enter_callee", "field", "downcast", "ref", "deref") for s_ in pt.steps)):
+                return False
+            if pt.origin[2] is not target_call:
+                # the parts may come from a helper's result that is itself the target, unchanged
+                if not _derives_unchanged_call(binc, sup, pt, target_call, depth):
+                    return False
+            seen_v.add(v_)
+        return seen_v == {"Ok", "Err"}
     if not (tr.origin and tr.origin[0] == "call" and all(s_[0] in ("use", "enter_caller", "enter_callee", "ref", "deref") for s_ in tr.steps)):
         return False
     ct = tr.origin[2]
